@@ -149,6 +149,10 @@ def reference(plan):
                 return 'auth', named, i
             if k in ('server_error', 'protocol_error'):
                 return 'fail', named, i            # an ERROR other than bad credentials inside the exchange: either class
+            if k == 'authenticate':
+                # v1: the peer answers CREDENTIALS by asking for credentials again. The property does not say whether a client
+                # answers again or gives up; whatever it does, 'ready-before-server-said-so' still requires a READY to CREDENTIALS.
+                return 'any', named, i
             return 'conn', named, i
         elif state == 'sasl':
             if k == 'success':
@@ -331,6 +335,8 @@ def run_plan(plan, seed, choices=None):
                   'factory() returned a connection at seq %d but the peer had sent neither READY (to STARTUP/CREDENTIALS) nor AUTH_SUCCESS '
                   '(to AUTH_RESPONSE) by then (script %r, auth %s, replies used %d)'
                   % (st['ret_seq'], [e['kind'] for e in plan['script']], plan['auth'], peer.pos))
+        elif exp == 'any':
+            sim.probe('v1_authenticate_repeated')
         elif exp != 'ready':
             V.add('C47/ready-iff', 'ready-on-illegal-handshake', 'factory() returned a connection; the reference handshake ends in %r at reply %d '
                   '(script %r, auth %s)' % (exp, decided, [e['kind'] for e in plan['script']], plan['auth']))
@@ -359,7 +365,7 @@ def run_plan(plan, seed, choices=None):
                 if not is_auth:
                     V.add('C47/auth-error', 'auth-failure-not-reported-as-such', 'expected AuthenticationFailed, factory() raised %r (script %r, auth %s)'
                           % (e, [x['kind'] for x in plan['script']], plan['auth']))
-            elif exp == 'fail':
+            elif exp in ('fail', 'any'):
                 if not isinstance(e, Exception):
                     V.add('C47/auth-error', 'wrong-error-class:%s' % type(e).__name__, 'factory() raised %r' % (e,))
             elif not is_conn:
